@@ -70,6 +70,13 @@ def compare_code(c, i, ref, x, co_code_hex=None):
         c.fail("lines", "findlinestarts|%s" % line_class(ref["linestarts"], x["linestarts"]),
                "%s findlinestarts: CPython %s..., xdis %s..." % (tag, first_diff(ref["linestarts"], x["linestarts"]),
                                                                  ""))
+    # ---------------- exception-handler targets are jump targets too (3.11+): the set xdis derives must be CPython's
+    if v >= (3, 11) and ref.get("exc") is not None:
+        xe = x.get("exc") if x.get("exc") is not None else x.get("exc_parsed")
+        if xe is not None:
+            rt, xt = sorted(set(e[2] for e in ref["exc"])), sorted(set(e[2] for e in xe))
+            if rt != xt:
+                c.fail("jump", "handler-target-set", "%s exception-handler targets: CPython %s, xdis %s" % (tag, rt[:8], xt[:8]))
     # ---------------- exception table / positions (3.11+)
     if v >= (3, 11):
         if "exc_err" in x:
@@ -133,6 +140,20 @@ def compare_code(c, i, ref, x, co_code_hex=None):
         pos += w
     if ok_tiling and pos != n:
         c.fail("tiling", "end", "%s stream ends at %d, len(co_code) = %d" % (tag, pos, n))
+    gi = x.get("instrs_gi")
+    if gi is not None:
+        if "err" in gi:
+            c.fail("argval", "get_instructions-of-other-Bytecode-raised", "%s Bytecode(A).get_instructions(B) raised %s" % (tag, gi["err"]))
+        else:
+            for a, b in zip(xi, gi["instrs"]):
+                if (a["o"], a["op"], a["a"]) != (b["o"], b["op"], b["a"]):
+                    c.fail("decode", "get_instructions-of-other-Bytecode", "%s at %d: Bytecode(B) gives %s %s, Bytecode(A).get_instructions(B) gives %s %s" % (
+                        tag, a["o"], a["n"], a["a"], b["n"], b["a"]))
+                    break
+                if a["v"] != b["v"]:
+                    c.fail("argval", "get_instructions-of-other-Bytecode|%s" % a["k"], "%s at %d %s %s: Bytecode(B) resolves %s, Bytecode(A).get_instructions(B) %s" % (
+                        tag, a["o"], a["n"], a["a"], cn.summary(a["v"]), cn.summary(b["v"])))
+                    break
     xmap = dict((ins["o"], ins) for ins in xi)
     roffs = set()
     has_ext = has_cache = False
